@@ -18,7 +18,13 @@ FINALS = [
     ("null", None), ("puts(\"last\")", None), ("if false { 1 }", None), ("let z = 99;", None), ("let w = \"s\";", None),
     ("fn late() { 1 }", None), ("{ 12 }", None), ("let q = 0; while q < 2 { q = q + 1; }", None), ("loop { break; }", None), ("acc = 5;", "5"),
     ("push(arr, 1);", None), ("arr", "[10, 20]"), ("-1", "-1"), ("!0", "true"),
+    # a final statement that is not an expression statement although the last emitted instructions belong to one
+    ("{ 5; }", None), ("7; { }", None), ("8; { let z = 1; }", None), ("{ { 3 } }", None), ("9; fn late2() { 2 }", None), ("6; let y = 1;", None),
+    ("4; while false { }", None), ("11; if false { 1 }", None), ("12; null", None), ("null; 13", "13"), ("{ 1 } 14", "14"),
 ]
+
+SHEBANGS = ["#!/usr/bin/env p2sh", "#!", "#!/usr/local/bin/p2sh -s", "#!/home/jos\u00e9/\u5de5\u5177/bin/p2sh", "#! \u00e9", "#!/bin/p2sh " + "x" * 300,
+            "#!\U0001F496\U0001F496", "#!/usr/bin/env p2sh\t# let q = 1;"]
 
 
 def gen_program(rng):
@@ -93,8 +99,8 @@ def run(chk):
             rel = t % 2 == 1
             with open(path, "w") as f:
                 f.write(text)
-            with open(spath, "w") as f:
-                f.write("#!/usr/bin/env p2sh\n" + text)
+            with open(spath, "w", encoding="utf-8") as f:
+                f.write(SHEBANGS[t % len(SHEBANGS)] + "\n" + text)
             with open(path + ".blank", "w") as f:
                 f.write("#\n" + text)
             rf = core.run_binary([path], release=rel, timeout=30)
